@@ -21,7 +21,9 @@ worker() {
   cp $MAIN/fmt-calib-*.json $cache/ 2>/dev/null
   export VERIF_REPO=$wt VERIF_CACHE=$cache VERIF_PROCS=${VERIF_PROCS:-6}
   for name in "$@"; do
-    if [[ $name == benign/* ]]; then
+    if [[ $name == benign2/* ]]; then
+      n=${name#benign2/}; diff=seeded/benign2/refactor$n.diff; ids=$(python3 -c "import json; print(' '.join(json.load(open('seeded/benign2/props.json'))['$n']))")
+    elif [[ $name == benign/* ]]; then
       n=${name#benign/}; diff=seeded/benign/refactor$n.diff; ids=$(python3 -c "import json; print(' '.join(json.load(open('seeded/benign/props.json'))['$n']))")
     else
       diff=seeded/$name/patch.diff; ids=${name%%-*}
@@ -32,7 +34,7 @@ worker() {
       code=$(echo "$res" | grep -oE "^== $id exit=[0-9]+" | grep -oE "[0-9]+$")
       first=$(echo "$res" | sed -n "/^== $id /,/^== /p" | grep -E "^(VIOLATION|BROKEN)" | head -1 | sed 's/.*#//' | cut -c1-200)
       inc=$(echo "$res" | sed -n "/^== $id /,/^== /p" | grep -c "^INCONCLUSIVE")
-      lab=$name; [[ $name == benign/* ]] && lab="$name@$id"
+      lab=$name; [[ $name == benign* ]] && lab="$name@$id"
       echo "$lab exit=$code inconclusive=$inc :: $first  ($(( $(date +%s) - s ))s)" >> $log
     done
   done
